@@ -252,6 +252,27 @@ type c12case struct {
 	Buf    int      `json:"buf"`
 	Pushes int      `json:"pushes,omitempty"`
 	PlainW bool     `json:"plainw,omitempty"`
+	FailW  int      `json:"failw,omitempty"` // k+1: the writer accepts k bytes and then fails; 0: it never fails
+}
+
+var errC12Writer = errors.New("c12: writer failed")
+
+// c12failW accepts left more bytes and then fails (short write + error, like a full disk or a closed pipe).
+type c12failW struct {
+	b    []byte
+	left int
+}
+
+func (w *c12failW) Write(p []byte) (int, error) {
+	if len(p) > w.left {
+		n := w.left
+		w.b = append(w.b, p[:n]...)
+		w.left = 0
+		return n, errC12Writer
+	}
+	w.b = append(w.b, p...)
+	w.left -= len(p)
+	return len(p), nil
 }
 
 // c12snap copies a case so that the stored replay payload is not mutated later.
@@ -347,7 +368,10 @@ func (e *c12env) streamOne(c *c12case, data []byte) {
 	var w io.Writer
 	pw := &c12plainW{}
 	e.wbuf.Reset()
-	if c.PlainW {
+	fw := &c12failW{left: c.FailW - 1}
+	if c.FailW > 0 {
+		w = fw
+	} else if c.PlainW {
 		w = pw
 	} else {
 		w = &e.wbuf
@@ -366,16 +390,47 @@ func (e *c12env) streamOne(c *c12case, data []byte) {
 		}
 	})
 	got := e.wbuf.Bytes()
-	if c.PlainW {
+	if c.FailW > 0 {
+		got = fw.b
+	} else if c.PlainW {
 		got = pw.b
 	}
 	t := c.Tree
 	ctx := func() string {
-		return fmt.Sprintf("input %q cuts %v every=%v buf=%d plainW=%v: n=%d err=%v clean=%v written=%q", data, c.Cuts, c.Every, c.Buf, c.PlainW, n, err, clean, got)
+		return fmt.Sprintf("input %q cuts %v every=%v buf=%d plainW=%v failW=%d: n=%d err=%v clean=%v written=%q", data, c.Cuts, c.Every, c.Buf, c.PlainW, c.FailW, n, err, clean, got)
 	}
 	if p != nil {
 		r.Outcome("panic")
 		r.Violate("streamTo: panic in "+site+" on well-formed reply", ctx()+fmt.Sprintf(" panic=%v", p), c12snap(c))
+		return
+	}
+	if c.FailW > 0 && err == errC12Writer {
+		// a failing writer: the stream may be given up (not clean), but a stream reported clean must leave the reader
+		// at the next frame, and what was written must be the first bytes of the payload
+		var payload []byte
+		switch t.Typ {
+		case '$', '=', '+', ',', '(':
+			payload = t.Str
+		case ':':
+			payload = []byte(strconv.FormatInt(t.Num, 10))
+		default:
+			payload = got
+		}
+		if !bytes.HasPrefix(payload, got) || n != int64(len(got)) {
+			r.Outcome("failing writer: written bytes are not a prefix")
+			r.Violate(fmt.Sprintf("streamTo: bytes accepted by a failing writer are not a prefix of the payload (%s)", c12rootDesc(t)), ctx(), c12snap(c))
+			return
+		}
+		if clean && (err2 != nil || nx.typ != '+' || nx.string() != "NEXT" || err3 != io.EOF) {
+			r.Outcome("failing writer: frame boundary lost")
+			r.Violate(fmt.Sprintf("streamTo: reported clean after a writer failure but the reader is not at the next frame (%s)", c12rootDesc(t)), ctx()+fmt.Sprintf("; following frame %s err=%v then err=%v", nx.String(), err2, err3), c12snap(c))
+			return
+		}
+		if clean {
+			r.Outcome("failing writer: rest of the reply skipped, stream clean")
+		} else {
+			r.Outcome("failing writer: stream given up (not clean)")
+		}
 		return
 	}
 	if !clean {
@@ -599,7 +654,7 @@ func TestVerif_C12(t *testing.T) {
 		r.Bounds["max_nodes"] = maxNodes
 		r.Bounds["pair_split_max_len"] = pairMax
 		r.Bounds["bufio_sizes"] = []int{16, 32, 4096}
-		r.Rule = "every RESP value tree with <= max_nodes nodes (attribute frame = 1 node) over types + - : $ _ # , ( ! = * ~ % > with RESP2 nulls, streamed strings (every 2-way chunking) and streamed aggregates; single-node replies use the full payload alphabet ('', a, OK, OKx, CRLF, a CRLF b, binary, 40 bytes, frame look-alikes), children a reduced one (thorough: a second pass with a larger child alphabet up to max_nodes-1 nodes); each encoding (own encoder) + '+NEXT' is decoded by the real readNextMessage through bufio readers of 16/32/4096 bytes with the stream cut at every single position, one byte per read, and (thorough, encodings <= 24 bytes) at every pair of positions; streamTo on every scalar/aggregate single-node reply with 0-2 push frames in front, both writer kinds. non-trivial = tree with aggregate, attribute, streamed form, CRLF in payload or payload > 16 bytes"
+		r.Rule = "every RESP value tree with <= max_nodes nodes (attribute frame = 1 node) over types + - : $ _ # , ( ! = * ~ % > with RESP2 nulls, streamed strings (every 2-way chunking) and streamed aggregates; single-node replies use the full payload alphabet ('', a, OK, OKx, CRLF, a CRLF b, binary, 40 bytes, frame look-alikes), children a reduced one (thorough: a second pass with a larger child alphabet up to max_nodes-1 nodes); each encoding (own encoder) + '+NEXT' is decoded by the real readNextMessage through bufio readers of 16/32/4096 bytes with the stream cut at every single position, one byte per read, and (thorough, encodings <= 24 bytes) at every pair of positions; streamTo on every scalar/aggregate single-node reply with 0-2 push frames in front, both writer kinds, and a writer that fails after k bytes for every k (a stream reported clean must leave the reader at the next frame). non-trivial = tree with aggregate, attribute, streamed form, CRLF in payload or payload > 16 bytes"
 		r.Assume("bufio.Reader size >= 32 as enforced by rueidis.go (ReadBufferEachConn < 32 -> default); the 16 byte reader is only used when every number line of the encoding fits into 16 bytes")
 		r.Assume("streamTo on a reply preceded by an attribute frame: only frame consumption is checked (weak reading: the streaming sentence of the property speaks of string/integer/float replies; Redis sends no attributes today); observed behaviour is recorded as an outcome")
 		r.Assume("booleans through streamTo: the property names string, integer and float replies only, so only exact frame consumption is checked for '#'")
@@ -724,6 +779,18 @@ func TestVerif_C12(t *testing.T) {
 						for k := 1; k < n; k++ {
 							c.Cuts = []int{k}
 							e.streamOne(c, data)
+						}
+						if !pw {
+							// a writer that fails after k bytes, for every k below the payload length (+ chunk boundaries come with the tree's encoding)
+							c.Cuts = nil
+							for k := 0; k < len(tr.Str)+1 && k < 48; k++ {
+								c.FailW = k + 1
+								c.Every = false
+								e.streamOne(c, data)
+								c.Every = true
+								e.streamOne(c, data)
+							}
+							c.FailW, c.Every = 0, false
 						}
 						if pushes == 0 && n-len(c12next) <= pairMax {
 							for a := 1; a < n; a++ {
